@@ -180,6 +180,8 @@ pub struct Setup {
     /// with `raise_usr1_when_blocked_after`: raise SIGUSR2 at the same instant (both signals are
     /// pending when the shell wakes up)
     pub raise_usr2_too: bool,
+    /// with `raise_usr1_when_blocked_after`: a (spurious) SIGCHLD arrives in the same instant
+    pub raise_chld_too: bool,
 }
 
 impl Setup {
@@ -204,6 +206,7 @@ impl Setup {
             raise_usr1_at_step: None,
             raise_usr1_when_blocked_after: None,
             raise_usr2_too: false,
+            raise_chld_too: false,
         }
     }
     pub fn args(mut self, args: &[&str]) -> Setup {
@@ -596,6 +599,9 @@ pub fn run(setup: &Setup) -> RunResult {
                                 let _ = p.raise_signal(SIGUSR1);
                                 if setup.raise_usr2_too && p.disposition(yash_env::system::r#virtual::SIGUSR2) == yash_env::system::Disposition::Catch {
                                     let _ = p.raise_signal(yash_env::system::r#virtual::SIGUSR2);
+                                }
+                                if setup.raise_chld_too {
+                                    let _ = p.raise_signal(yash_env::system::r#virtual::SIGCHLD);
                                 }
                                 log.raised = true;
                                 log.raised_trace_len = probes::TRACE.with(|t| t.borrow().len());
